@@ -394,6 +394,41 @@ impl Prio3Visitor for V02<'_> {
             }
         }
 
+        // ---- API-level alteration: a verifier message stripped of its joint-randomness seed ----------
+        // (constructible by decoding an empty message under the state of an instance without joint
+        // randomness; unreachable through this instance's own decoder, which demands the seed)
+        if lay.jr {
+            use prio::vdaf::prio3::Prio3VerifierMessage;
+            if let Ok(cvdaf) = Prio3::<prio::flp::types::Count<T::Field>, P, 32>::new(cfg.aggs, 1, 1, prio::flp::types::Count::new()) {
+                let ctape = rng.bytes(cfg.aggs as usize * 32);
+                if let Ok(Ok((cps, csh))) = catch(|| cvdaf.shard_with_random(&vctx, &true, &nonce, &ctape)) {
+                    if let Ok(Ok((cstate, _))) = catch(|| cvdaf.verify_init(&key, &vctx, 0, &(), &nonce, &cps, &csh[0])) {
+                        if let Ok(seedless) = Prio3VerifierMessage::<32>::get_decoded_with_param(&cstate, &[]) {
+                            let mut finished = 0;
+                            let mut n_states = 0;
+                            for (i, b) in isb.iter().enumerate() {
+                                let sh = <Prio3<T, P, 32> as Vdaf>::InputShare::get_decoded_with_param(&(&vdaf, i), b).unwrap();
+                                if let Ok(Ok((st, _))) = catch(|| vdaf.verify_init(&key, &vctx, i, &(), &nonce, &ps, &sh)) {
+                                    n_states += 1;
+                                    ctx.eval();
+                                    if let Ok(Ok(prio::vdaf::VerifyTransition::Finish(_))) = catch(|| vdaf.verify_next(&vctx, st, seedless.clone())) {
+                                        finished += 1;
+                                    }
+                                }
+                            }
+                            if n_states > 0 && finished == n_states {
+                                ctx.violation(format!("{k}|tampered-accepted|verifier-message-seed-stripped"),
+                                    "a verifier message stripped of its joint-randomness seed made every aggregator finish (the joint-randomness agreement check was skipped)",
+                                    json!({"config": desc, "measurement": p.meas_json(&m)}));
+                            } else {
+                                ctx.count("seedless_verifier_message_rejected");
+                            }
+                        }
+                    }
+                }
+            }
+        }
+
         // ---- share count check ------------------------------------------------------------------
         {
             let mut states = vec![];
